@@ -1,11 +1,23 @@
 import ICS.Driver.Shaping
+import ICS.Driver.ValSet
+import ICS.Driver.Provider
 open ICS ICS.Driver
 
-def dispatch (a : Acc) (s : Step) : Acc :=
-  let a := { a with ops := a.ops + 1 }
+structure DState where
+  acc : Acc := {}
+  vs  : VSState := {}
+  pv  : ProvDrv := {}
+
+def dispatch (d : DState) (s : Step) : DState :=
+  let a := { d.acc with ops := d.acc.ops + 1 }
   match s.op.name with
-  | "powercap" => stepPowercap a s
-  | _ => a.tag ("unknown-op:" ++ s.op.name)
+  | "powercap" => { d with acc := stepPowercap a s }
+  | "keyorder" | "diff" | "accum" | "cinit" | "applycc" =>
+    let r := stepValSet d.vs a s
+    { d with vs := r.1, acc := r.2 }
+  | _ =>
+    let r := stepProv d.pv a s
+    { d with pv := r.1, acc := r.2 }
 
 def main (args : List String) : IO UInt32 := do
   match args with
@@ -13,9 +25,9 @@ def main (args : List String) : IO UInt32 := do
     let txt ← IO.FS.readFile path
     let lines := (txt.splitOn "\n").zipIdx.map fun p => (p.2 + 1, parseLine p.1)
     let steps := groupSteps lines
-    let acc := steps.foldl dispatch {}
-    IO.println acc.report
-    return (if acc.mismatches.isEmpty && acc.specfails.isEmpty then 0 else 1)
+    let d := steps.foldl dispatch {}
+    IO.println d.acc.report
+    return (if d.acc.mismatches.isEmpty && d.acc.specfails.isEmpty then 0 else 1)
   | _ =>
     IO.eprintln "usage: icsdriver <trace>"
     return 2
